@@ -61,7 +61,7 @@ STD_FINISH = "<compaction::flavour::StandardCompaction as compaction::flavour::C
 RELOC_FINISH = "<compaction::flavour::RelocatingCompaction as compaction::flavour::CompactionFlavour>::finish"
 FLAVOUR_FINISH = "compaction::flavour::CompactionFlavour::finish"
 FLAVOUR_WRITE = "compaction::flavour::CompactionFlavour::write"
-INGEST_FINISH = "tree::ingest::Ingestion::finish"
+INGEST_FINISH = "tree::ingest::Ingestion::finish"   # resolved through stripped generics
 BLOB_INGEST_FINISH = "blob_tree::ingest::BlobIngestion::finish"
 TREE_CLEAR = tm(TREE, "clear")
 BLOB_CLEAR = tm(BLOBTREE, "clear")
